@@ -300,3 +300,12 @@ class FmtArgsV:
 
     def __init__(self, template, args):
         self.template, self.args = template, args
+
+
+class BytesV(OpaqueV):
+    """a byte-string constant (format templates)"""
+    __slots__ = ("b",)
+
+    def __init__(self, b):
+        self.what = "bytes"
+        self.b = b
